@@ -101,7 +101,7 @@ def run(chk):
     if not ok:
         handle_broken(chk)
 
-    n_base = 420 if quick else 5000
+    n_base = 420 if quick else 2500
     bases = []
     for _ in range(n_base):
         name, hint = rng.choice(NAMES)
